@@ -1,7 +1,7 @@
 (** C10: refutations kept as findings (each closed by vm_compute in proofs/LocRules.v). *)
 From Verif Require Import Json Outcome State Location LocSpec LocRules.
-(** StateSize is not gated by the enabled property: a disabled location answers it. *)
-Definition statesize_ignores_enabled_refuted := statesize_ignores_enabled_counterexample.
+(** D36 (repaired in /repo): StateSize used not to be gated by the enabled property. *)
+Definition statesize_reports_disabled := statesize_reports_disabled_example.
 (** A rule whose id is the location's own enabled-property ("!.enabled") loses
     its disabled flag when that property expires (the flag depends on it). *)
 Definition disable_then_not_enabled_refuted := disable_then_not_enabled_counterexample.
